@@ -20,7 +20,7 @@ func init() {
 			"(R1) every early-out disjunct of a fire function is the sound aggregate lift (four-entry table, DESIGN.md §3/C08) of a per-observer requirement of the same function on the same mask parameter, for the same event index; " +
 			"(R2) the per-observer skip conditions of each fire function equal the documented semantics of its event family (docs/content/events, Observer.For/With/Without/Exclusive); " +
 			"(R3) observer registration sets each guard flag together with the mask bits, routes observed components of entity events into the with-mask, computes the exclusive mask after all with-bits and folds the observer's own masks into the aggregates; " +
-			"(R4) removing an observer unconditionally recomputes all aggregates of its event from the remaining observers; (R5) no function callable from a callback stores into elements of a per-event observer slice in place; " +
+			"(R4) removing an observer unconditionally recomputes all aggregates of its event from the remaining observers; (R5) no function callable from a callback stores into elements of a per-event observer slice in place, neither directly nor through a local that on some path is (a re-slice of) such a slice; " +
 			"(R6) all callers of an internal operation that leaves emission to its caller fire the same events under the same guards; (R7) the relation change-mask bit is set exactly on the path that records a changed target. " +
 			"(R8 = C04/R11) a change mask that is filled and recorded per table is fresh for every table. Not decided: exactly-once counts over batches; mask bit arithmetic.",
 		TrustedBase: []string{"go/types", "frozen semantics table per event family (from the documentation)", "four-entry aggregate lifting table (two-line set arguments)"},
@@ -1384,7 +1384,7 @@ func c08r4(c *core.Ctx) {
 		}
 		core.InspectNoLits(f.Body, func(n ast.Node) bool {
 			if call, ok := n.(*ast.CallExpr); ok && m.IsBuiltin(call, "delete") && len(call.Args) == 2 {
-				if m.AccessPath(f, call.Args[0]).Last() == "observerManager.indices" && f.Sig.Params().Len() == 1 {
+				if m.AccessPath(f, call.Args[0]).Last() == "observerManager.indices" && f.Sig.Params().Len() >= 1 && isPtrTo(f.Sig.Params().At(0).Type(), "Observer") {
 					rem = f
 				}
 			}
@@ -1392,7 +1392,7 @@ func c08r4(c *core.Ctx) {
 		})
 	}
 	if rem == nil {
-		c.Undecide("C08/R4", "unregister role", "no observerManager method deleting from indices with one parameter")
+		c.Undecide("C08/R4", "unregister role", "no observerManager method that takes the observer and deletes it from indices")
 		return
 	}
 	fieldOfSel := func(e ast.Expr) string {
@@ -1601,6 +1601,50 @@ func c08r5(c *core.Ctx) {
 				if lv >= 2 {
 					bad = true
 					c.Violation("C08/R5", f.Name+" stores observer element in place", c.At(as.Pos()), fmt.Sprintf("%s: in-place store into an element of a per-event observer slice (%s); a dispatch loop ranging over that slice (the function is callable from a callback) would see a moved or nil entry", f.Name, m.ExprString(as.Lhs[0])))
+				}
+			}
+			return true
+		})
+		// the same through a local that may stand for (a reslice of) a per-event slice on some path
+		core.InspectNoLits(f.Body, func(x ast.Node) bool {
+			as, ok := x.(*ast.AssignStmt)
+			if !ok {
+				return true
+			}
+			for _, l := range as.Lhs {
+				ix, ok := ast.Unparen(l).(*ast.IndexExpr)
+				if !ok {
+					continue
+				}
+				id := identOf(ix.X)
+				if id == nil {
+					continue
+				}
+				v, ok := m.Info.ObjectOf(id).(*types.Var)
+				if !ok || v.IsField() {
+					continue
+				}
+				if _, isP := paramIndexOf(f, v); isP {
+					continue
+				}
+				for _, d := range localDefsOf(m, f, v) {
+					for _, e := range exprChain(m, f, d, 0) {
+						p := m.AccessPath(f, e)
+						lv, seen := 0, false
+						for _, k := range p.Keys {
+							if k == "observerManager.observers" {
+								seen = true
+								continue
+							}
+							if seen && k == "[]" {
+								lv++
+							}
+						}
+						if seen && lv == 1 && !bad {
+							bad = true
+							c.Violation("C08/R5", f.Name+" stores observer element in place", c.At(as.Pos()), fmt.Sprintf("%s: %s may be (a reslice of) a per-event observer slice here (%s), so the element store edits the slice a dispatch loop may be ranging over; the function is callable from a callback", f.Name, id.Name, m.ExprString(d)))
+						}
+					}
 				}
 			}
 			return true
